@@ -82,15 +82,16 @@ def main():
         print(l)
     print('%s %s: %d instances, %d feasible paths (%d non-trivial), %d solver queries in %.1fs, wall %.1fs; classes %s' % (
         prop, tier, len(insts), tot.paths, tot.nontrivial, tot.queries, tot.solver_s, wall, json.dumps(tot.classes)))
-    if missing:
-        print('INCONCLUSIVE: vacuity witness missing - no feasible path reached oracle class(es) %s' % missing)
-        return 2
     if confirmed:
+        # a natively reproduced counterexample stands on its own, whatever else the run did or did not reach
         for v, detail in confirmed:
             p = common.save_replay(prop, v)
             print('counterexample: %s; %s' % (v['what'], detail))
             print('VIOLATION property=%s replay=%s' % (prop, p))
         return 1
+    if missing:
+        print('INCONCLUSIVE: vacuity witness missing - no feasible path reached oracle class(es) %s' % missing)
+        return 2
     if unconfirmed:
         for v, detail in unconfirmed[:5]:
             print('INCONCLUSIVE: symbolic counterexample does not reproduce natively: %s (%s) input=%s' % (v['what'], detail, json.dumps(v.get('input'))[:200]))
